@@ -229,6 +229,18 @@ func chainTx(n *Node, contracts *[]common.Address, t M) ([]byte, error) {
 	case "convert_coin":
 		c := sdk.NewCoin(fmt.Sprintf("aLIQUID%d", num(t, "id", 0)), coin(str(t, "amt")).Amount)
 		return cosmos(3000000, erc20types.NewMsgConvertCoin(c, ethAddr(w.Acct(str(t, "to"))), from.Addr))
+	case "deploy_empty":
+		// constructor stores a value and returns no runtime code: an account with the empty
+		// code hash but non-empty storage
+		bz, _, err := n.EthTxFor(from, nil, big.NewInt(0), 200000, []byte{0x60, 0x2a, 0x60, 0x00, 0x55, 0x60, 0x07, 0x60, 0x01, 0x55, 0x60, 0x00, 0x60, 0x00, 0xf3})
+		return bz, err
+	case "gov_toggle":
+		content := erc20types.NewToggleTokenConversionProposal("t", "d", fmt.Sprintf("aLIQUID%d", num(t, "id", 0)))
+		msg, err := govv1beta1.NewMsgSubmitProposal(content, sdk.NewCoins(coin("5000")), from.Addr)
+		if err != nil {
+			return nil, err
+		}
+		return cosmos(500000, msg)
 	case "bad_nonce":
 		// a transaction that the ante handler rejects (stale sequence): exercises the failure path
 		acc := n.App.AccountKeeper.GetAccount(n.Ctx(), from.Addr)
@@ -281,6 +293,12 @@ func (n *Node) exportImport() (M, error) {
 	fresh.InitChain(abci.RequestInitChain{ChainId: ChainID, Time: n.Time, Validators: vals,
 		ConsensusParams: exp.ConsensusParams, AppStateBytes: exp.AppState, InitialHeight: exp.Height})
 	fresh.Commit()
+	// a second import that is NOT committed: it continues with the next block exactly as a chain
+	// started from the exported genesis would (same height and header as the original)
+	cont := openApp(dbm.NewMemDB())
+	cont.InitChain(abci.RequestInitChain{ChainId: ChainID, Time: n.Time, Validators: vals,
+		ConsensusParams: exp.ConsensusParams, AppStateBytes: exp.AppState, InitialHeight: exp.Height})
+	n.imported = &Node{W: n.W, App: cont, Height: n.Height, Time: n.Time, LastHash: n.LastHash}
 	exp2, err := fresh.ExportAppStateAndValidators(false, nil, nil)
 	if err != nil {
 		return nil, err
@@ -396,7 +414,12 @@ func chainMain(args []string) error {
 		switch st.Ev {
 		case "block":
 			in := BlockIn{DtMs: st.DtMs, Proposer: st.Proposer, Absent: st.Absent, Evidence: st.Evidence}
+			imp := n.imported
+			impres := []any{}
 			n.BeginBlock(in)
+			if imp != nil {
+				imp.BeginBlockWith(n.LastReq)
+			}
 			var rec chainBlockRec
 			if *role == "follow" {
 				rec = recs[bi]
@@ -408,6 +431,21 @@ func chainMain(args []string) error {
 				tr := TxResult(r)
 				tr["k"] = kind
 				txres = append(txres, tr)
+				if imp != nil {
+					ri := imp.Deliver(bz)
+					if os.Getenv("HV_DEBUG") != "" {
+						for _, pair := range [][]abci.Event{r.Events, ri.Events} {
+							for _, ev := range pair {
+								if ev.Type == "withdraw_rewards" || ev.Type == "coin_received" {
+									fmt.Fprintln(os.Stderr, "DEBUG", kind, ev.Type, ev.Attributes)
+								}
+							}
+							fmt.Fprintln(os.Stderr, "DEBUG ---")
+						}
+					}
+					impres = append(impres, M{"k": kind, "code": int(ri.Code), "codespace": ri.Codespace, "data": digest(ri.Data),
+						"gen_code": int(r.Code), "gen_codespace": r.Codespace, "gen_data": digest(r.Data)})
+				}
 				if r.Code != 0 {
 					l := r.Log
 					if len(l) > 200 {
@@ -455,6 +493,28 @@ func chainMain(args []string) error {
 				}()
 			}
 			hash := n.Commit()
+			if imp != nil {
+				imp.EndBlock()
+				imp.Commit()
+				if os.Getenv("HV_DEBUG") != "" {
+					e1, _ := n.App.ExportAppStateAndValidators(false, nil, nil)
+					e2, _ := imp.App.ExportAppStateAndValidators(false, nil, nil)
+					var d1, d2 map[string]any
+					json.Unmarshal(e1.AppState, &d1)
+					json.Unmarshal(e2.AppState, &d2)
+					for _, mod := range sortedKeys(d1) {
+						f1, f2 := map[string]string{}, map[string]string{}
+						flatten("", d1[mod], f1)
+						flatten("", d2[mod], f2)
+						for _, p := range sortedKeys(f1) {
+							if f2[p] != f1[p] {
+								fmt.Fprintln(os.Stderr, "DEBUGDIFF", n.Height, mod, p, f1[p], f2[p])
+							}
+						}
+					}
+				}
+				emit(M{"ev": "imported_block", "h": n.Height, "txs": impres})
+			}
 			cp := ""
 			if eb.ConsensusParamUpdates != nil {
 				bz, _ := eb.ConsensusParamUpdates.Marshal()
@@ -592,6 +652,18 @@ func (n *Node) haqqQueries() map[string]haqqQuery {
 	add("epochs.infos", "epochs.infos", "/evmos.epochs.v1.Query/EpochInfos", &epochstypes.QueryEpochsInfoRequest{})
 	add("epochs.current.day", "epochs.current", "/evmos.epochs.v1.Query/CurrentEpoch", &epochstypes.QueryCurrentEpochRequest{Identifier: "day"})
 	add("vesting.totallocked", "vesting.totallocked", "/haqq.vesting.v1.Query/TotalLocked", &vestingtypes.QueryTotalLockedRequest{})
+	n.App.BankKeeper.IterateTotalSupply(ctx, func(c sdk.Coin) bool {
+		if strings.HasPrefix(c.Denom, "aLIQUID") {
+			add("erc20.pair."+c.Denom, "erc20.pair", "/evmos.erc20.v1.Query/TokenPair", &erc20types.QueryTokenPairRequest{Token: c.Denom})
+			add("liquidvesting.denom."+c.Denom, "liquidvesting.denom", "/haqq.liquidvesting.v1.Query/Denom", &liquidvestingtypes.QueryDenomRequest{Denom: c.Denom})
+		}
+		return false
+	})
+	for id := 0; id < 4; id++ {
+		d := fmt.Sprintf("aLIQUID%d", id)
+		add("erc20.pair."+d, "erc20.pair", "/evmos.erc20.v1.Query/TokenPair", &erc20types.QueryTokenPairRequest{Token: d})
+		add("liquidvesting.denom."+d, "liquidvesting.denom", "/haqq.liquidvesting.v1.Query/Denom", &liquidvestingtypes.QueryDenomRequest{Denom: d})
+	}
 	i := 0
 	n.App.AccountKeeper.IterateAccounts(ctx, func(acc authtypes.AccountI) bool {
 		i++
@@ -602,7 +674,7 @@ func (n *Node) haqqQueries() map[string]haqqQuery {
 		if _, ok := acc.(*vestingtypes.ClawbackVestingAccount); ok {
 			add(fmt.Sprintf("vesting.balances.%03d", i), "vesting.balances", "/haqq.vesting.v1.Query/Balances", &vestingtypes.QueryBalancesRequest{Address: addr.String()})
 		}
-		if ea, ok := acc.(interface{ GetCodeHash() common.Hash }); ok && ea.GetCodeHash() != common.BytesToHash(ethcrypto.Keccak256(nil)) {
+		if _, ok := acc.(interface{ GetCodeHash() common.Hash }); ok {
 			add(fmt.Sprintf("evm.code.%03d", i), "evm.code", "/ethermint.evm.v1.Query/Code", &evmtypes.QueryCodeRequest{Address: hex})
 			for slot := 0; slot < 4; slot++ {
 				add(fmt.Sprintf("evm.storage.%03d.%d", i, slot), "evm.storage", "/ethermint.evm.v1.Query/Storage",
